@@ -50,6 +50,8 @@ struct Scenario {
     sort: Option<&'static str>,
     output: OutputKind,
     args_first: bool,
+    /// an existing output file is longer than anything the program writes (stale bytes must not survive)
+    long_existing: bool,
 }
 
 const CLI_DERIVES: &[&str] = &[
@@ -92,6 +94,7 @@ fn decode(tapes: &Tapes) -> Scenario {
         _ => OutputKind::BelowRegularFile,
     };
     let args_first = m.chance(128);
+    let long_existing = m.chance(128);
     let mut t = Tape::new(&tapes.a);
     let mut dom = Domain::general();
     dom.max_docs = 1;
@@ -113,7 +116,7 @@ fn decode(tapes: &Tapes) -> Scenario {
         InputKind::Empty => input = m.pick(&["", " ", "<!-- c -->", "text only"]).as_bytes().to_vec(),
         _ => {}
     }
-    Scenario { input_kind, input, parser, parser_short, derive, sort, output, args_first }
+    Scenario { input_kind, input, parser, parser_short, derive, sort, output, args_first, long_existing }
 }
 
 fn describe(s: &Scenario) -> Value {
@@ -152,13 +155,14 @@ fn run(s: &Scenario, dir: &Path) -> Result<(), String> {
         InputKind::Directory => std::fs::create_dir_all(&input_path).map_err(|e| format!("INFRA: {}", e))?,
         _ => std::fs::write(&input_path, &s.input).map_err(|e| format!("INFRA: {}", e))?,
     }
-    const OLD: &[u8] = b"// previous content\n";
+    let old_content: Vec<u8> = if s.long_existing { b"// previous content of the output file\n".repeat(400) } else { b"// previous content\n".to_vec() };
+    let old: &[u8] = &old_content;
     let out_path: Option<PathBuf> = match s.output {
         OutputKind::Stdout => None,
         OutputKind::NewFile => Some(dir.join("out.rs")),
         OutputKind::ExistingFile => {
             let p = dir.join("out.rs");
-            std::fs::write(&p, OLD).map_err(|e| format!("INFRA: {}", e))?;
+            std::fs::write(&p, old).map_err(|e| format!("INFRA: {}", e))?;
             Some(p)
         }
         OutputKind::MissingDir => Some(dir.join("no_such_dir").join("out.rs")),
@@ -252,7 +256,7 @@ fn run(s: &Scenario, dir: &Path) -> Result<(), String> {
                 }
                 OutputKind::ExistingFile => {
                     let now = std::fs::read(dir.join("out.rs")).map_err(|e| format!("existing output file vanished: {}", e))?;
-                    if now != OLD {
+                    if now != old {
                         return Err(format!("the input was at fault but the existing output file was modified (now {} bytes)", now.len()));
                     }
                 }
@@ -296,6 +300,9 @@ impl Property for C12 {
         st.count(&format!("parser.{}", s.parser.unwrap_or("default")));
         st.count(&format!("sort.{}", s.sort.unwrap_or("default")));
         st.count(if s.derive.is_some() { "derive.given" } else { "derive.default" });
+        if s.output == OutputKind::ExistingFile && s.long_existing {
+            st.count("output.ExistingFile.longer_than_new_output");
+        }
         if library(&s).is_err() && matches!(s.input_kind, InputKind::Damaged | InputKind::Empty) {
             st.count("input.rejected_by_parser");
         }
@@ -307,7 +314,7 @@ impl Property for C12 {
         }
     }
     fn rule(&self) -> String {
-        "one process run of the freshly built CLI per case: input file in {generated valid document, byte-damaged UTF-8 document, non-UTF-8, missing, a directory, element-less} x --parser/-p in {default, quick-xml-de, serde-xml-rs} x --derive=<string from a list incl. empty, leading dashes, unicode, newline, shell metacharacters> or default x --sort in {default, unsorted, name} x output in {stdout, new file, existing file, path in a missing directory, path that is a directory, path below a regular file}, options before or after the positional arguments. Oracle: success = exit 0 and stdout (plus newline) or file bytes equal header + in-process library rendering with the mapped options, stdout empty when a file is named; failure = exit 1, empty stdout, non-empty stderr, named output untouched when the input was at fault. Non-trivial = any non-default option, an output file or a fault; distinct by hash of input bytes and arguments.".into()
+        "one process run of the freshly built CLI per case: input file in {generated valid document, byte-damaged UTF-8 document, non-UTF-8, missing, a directory, element-less} x --parser/-p in {default, quick-xml-de, serde-xml-rs} x --derive=<string from a list incl. empty, leading dashes, unicode, newline, shell metacharacters> or default x --sort in {default, unsorted, name} x output in {stdout, new file, existing file (short, or 15 KB and thus longer than the new output), path in a missing directory, path that is a directory, path below a regular file}, options before or after the positional arguments. Oracle: success = exit 0 and stdout (plus newline) or file bytes equal header + in-process library rendering with the mapped options, stdout empty when a file is named; failure = exit 1, empty stdout, non-empty stderr, named output untouched when the input was at fault. Non-trivial = any non-default option, an output file or a fault; distinct by hash of input bytes and arguments.".into()
     }
     fn assumptions(&self) -> Vec<String> {
         vec![
@@ -329,6 +336,7 @@ impl Property for C12 {
             ("input.Directory", 50),
             ("output.NewFile", 300),
             ("output.ExistingFile", 300),
+            ("output.ExistingFile.longer_than_new_output", 100),
             ("output.MissingDir", 50),
             ("output.IsDirectory", 50),
             ("output.BelowRegularFile", 50),
